@@ -14,11 +14,11 @@ open TapkeeVerif.Gen.Cli
 theorem rtOf_files_effects (s : St) (f : List (String × Str)) (e : List String) :
     rtOf { s with files := f, effects := e } = rtOf s := rfl
 
-/-- If a guard with condition `c` is reached (in the sense of `reachesGuard`) and `c` evaluates to true — for every
+/-- If a guard with condition `c` is reached (in the sense of `reachesGuard`) and `c` does not evaluate to false — for every
     state of the run-time facts — then `run()` returns a non-zero status, whatever the other options are. -/
 theorem runSteps_guard_nonzero (rows : List OptRow) (maps : List NameMap) (wiring : List WireRow)
     (catches : List (String × Nat)) (readFile : String → Option Str) (lib : Lib) (o : Opts) (c : Expr)
-    (hc : ∀ rt, evalCond rows maps rt o c = some true) :
+    (hc : ∀ rt, evalCond rows maps rt o c ≠ some false) :
     ∀ (steps : List Step) (s : St), reachesGuard c steps = true →
       (runSteps rows maps wiring catches readFile lib o steps s).exit ≠ 0
   | [], _, h => by simp [reachesGuard] at h
@@ -34,8 +34,8 @@ theorem runSteps_guard_nonzero (rows : List OptRow) (maps : List NameMap) (wirin
       | true => simpa [St.done] using hne
       | false =>
         rcases hcase with heq | hrest
-        · rw [heq, hc] at hg
-          cases hg
+        · rw [heq] at hg
+          exact absurd hg (hc _)
         · simpa using runSteps_guard_nonzero rows maps wiring catches readFile lib o c hc rest s hrest
   | .effect e what :: rest, s, h => by
     simp only [reachesGuard] at h
@@ -70,7 +70,7 @@ theorem runSteps_guard_nonzero (rows : List OptRow) (maps : List NameMap) (wirin
 theorem mainWith_guard_nonzero (rows : List OptRow) (maps : List NameMap) (wiring : List WireRow) (steps : List Step)
     (catches : List (String × Nat)) (readFile : String → Option Str) (lib : Lib) (o : Opts) (c : Expr)
     (hcatch : catchExit catches ≠ 0) (hreach : reachesGuard c steps = true)
-    (hc : ∀ rt, evalCond rows maps rt o c = some true) :
+    (hc : ∀ rt, evalCond rows maps rt o c ≠ some false) :
     (mainWith rows maps wiring steps catches readFile lib o).exit ≠ 0 := by
   unfold mainWith
   split
@@ -160,31 +160,490 @@ theorem evalCond_not_count (rows : List OptRow) (maps : List NameMap) (rt : Runt
   · have hp : 0 < countOf o x := Nat.pos_of_ne_zero h
     simp [hp, h]
 
-/-- `if (!opt.count("transpose-input")) input_data.transposeInPlace();` -/
+/-- `if (COND) input_data.transposeInPlace();` — whatever the spelling of COND: with `data_path_is_spec` (COND has the
+    truth table of "--transpose-input absent") and `table_spec`, the library receives `libraryInput given F` -/
 theorem runSteps_transpose_input (rows : List OptRow) (maps : List NameMap) (wiring : List WireRow)
-    (catches : List (String × Nat)) (readFile : String → Option Str) (lib : Lib) (o : Opts) (x : String)
-    (rest : List Step) (s : St) (F : DMat Rat) (hF : s.input = some F) :
-    runSteps rows maps wiring catches readFile lib o (.transpose (.not (.count x)) "input" :: rest) s =
-      runSteps rows maps wiring catches readFile lib o rest
-        { s with input := some (libraryInput (decide (0 < countOf o x)) F) } := by
+    (catches : List (String × Nat)) (readFile : String → Option Str) (lib : Lib) (o : Opts) (c : Expr) (b : Bool)
+    (rest : List Step) (s : St) (F : DMat Rat) (hF : s.input = some F)
+    (hc : evalCond rows maps (rtOf s) o c = some b) :
+    runSteps rows maps wiring catches readFile lib o (.transpose c "input" :: rest) s =
+      runSteps rows maps wiring catches readFile lib o rest { s with input := some (libraryInput (!b) F) } := by
   rw [runSteps]
-  simp only [evalCond_not_count]
-  by_cases h : 0 < countOf o x
-  · simp [h, libraryInput, ← hF]
-  · simp [h, libraryInput, hF]
+  simp only [hc]
+  cases b
+  · simp [libraryInput, ← hF]
+  · simp [libraryInput, hF]
 
-/-- `if (opt.count("transpose-output")) output.embedding.transposeInPlace();` -/
+/-- `if (COND) output.embedding.transposeInPlace();` -/
 theorem runSteps_transpose_output (rows : List OptRow) (maps : List NameMap) (wiring : List WireRow)
-    (catches : List (String × Nat)) (readFile : String → Option Str) (lib : Lib) (o : Opts) (x : String)
-    (rest : List Step) (s : St) (R : EmbedResult) (hR : s.output = some R) :
-    runSteps rows maps wiring catches readFile lib o (.transpose (.count x) "output.embedding" :: rest) s =
+    (catches : List (String × Nat)) (readFile : String → Option Str) (lib : Lib) (o : Opts) (c : Expr) (b : Bool)
+    (rest : List Step) (s : St) (R : EmbedResult) (hR : s.output = some R)
+    (hc : evalCond rows maps (rtOf s) o c = some b) :
+    runSteps rows maps wiring catches readFile lib o (.transpose c "output.embedding" :: rest) s =
       runSteps rows maps wiring catches readFile lib o rest
-        { s with output := some { R with embedding := writtenOutput (decide (0 < countOf o x)) R.embedding } } := by
+        { s with output := some { R with embedding := writtenOutput b R.embedding } } := by
   rw [runSteps]
-  simp only [evalCond_count]
-  by_cases h : 0 < countOf o x
-  · simp [h, writtenOutput, hR]
-  · simp [h, writtenOutput, ← hR]
+  simp only [hc]
+  cases b
+  · simp [writtenOutput, ← hR]
+  · simp [writtenOutput, hR]
+
+/-! ## guards matched by MEANING: atoms -/
+
+theorem evalCond_not (rows : List OptRow) (maps : List NameMap) (rt : Runtime) (o : Opts) (e : Expr) :
+    evalCond rows maps rt o (.not e) = (evalCond rows maps rt o e).map (!·) := by
+  simp only [evalCond, eval]
+  cases (eval rows maps rt o e).truthy <;> simp [Val.truthy]
+
+theorem evalCond_or (rows : List OptRow) (maps : List NameMap) (rt : Runtime) (o : Opts) (a b : Expr) :
+    evalCond rows maps rt o (.bin .or a b) =
+      (match evalCond rows maps rt o a, evalCond rows maps rt o b with
+       | some x, some y => some (x || y)
+       | some true, _ => some true
+       | _, _ => none) := by
+  simp only [evalCond, eval]
+  cases ha : (eval rows maps rt o a).truthy with
+  | none => cases hb : (eval rows maps rt o b).truthy <;> simp [Val.truthy]
+  | some x =>
+    cases hb : (eval rows maps rt o b).truthy with
+    | none => cases x <;> simp [Val.truthy]
+    | some y => simp [Val.truthy]
+
+/-- the numeric value of an option text / a literal of type `int` or `double` -/
+def numOf? (ty : Ty) (s : String) : Option Rat :=
+  match ty with
+  | .int => (parseIntCxx s.toList).map (fun n => (n : Rat))
+  | .dbl => parseNum s.toList
+  | _ => none
+
+/-- a numeric, non-string value -/
+def IsNum (v : Val) (x : Rat) : Prop := v.num = some x ∧ ∀ t, v ≠ .s t
+
+theorem isNum_value (rows : List OptRow) (maps : List NameMap) (rt : Runtime) (o : Opts) (opt : String) (ty : Ty)
+    (x : Rat) (hty : ty = .int ∨ ty = .dbl) (hx : numOf? ty (textOf rows o opt) = some x) :
+    IsNum (eval rows maps rt o (.value opt ty)) x := by
+  rcases hty with rfl | rfl
+  · cases hn : parseIntCxx (textOf rows o opt).toList with
+    | none => simp [numOf?, hn] at hx
+    | some n =>
+      simp [numOf?, hn] at hx
+      subst hx
+      simp [IsNum, eval, hn, Val.num]
+  · simp only [numOf?] at hx
+    simp [IsNum, eval, hx, Val.num]
+
+theorem isNum_lit (rows : List OptRow) (maps : List NameMap) (rt : Runtime) (o : Opts) (ty : Ty) (s : String)
+    (y : Rat) (hty : ty = .int ∨ ty = .dbl) (hy : numOf? ty s = some y) :
+    IsNum (eval rows maps rt o (.lit ty s)) y := by
+  rcases hty with rfl | rfl
+  · cases hm : parseIntCxx s.toList with
+    | none => simp [numOf?, hm] at hy
+    | some m =>
+      simp [numOf?, hm] at hy
+      subst hy
+      simp [IsNum, eval, litVal, hm, Val.num]
+  · simp only [numOf?] at hy
+    simp [IsNum, eval, litVal, hy, Val.num]
+
+theorem evalCond_bin_num (rows : List OptRow) (maps : List NameMap) (rt : Runtime) (o : Opts) (op : BinOp)
+    (a b : Expr) (x y : Rat) (hop : isOrdOp op = true) (ha : IsNum (eval rows maps rt o a) x)
+    (hb : IsNum (eval rows maps rt o b) y) :
+    evalCond rows maps rt o (.bin op a b) = some (cmpOp op x y) := by
+  obtain ⟨hax, has⟩ := ha
+  obtain ⟨hby, _⟩ := hb
+  simp only [evalCond, eval]
+  cases hva : eval rows maps rt o a with
+  | s t => exact absurd hva (has t)
+  | b v => cases op <;> simp [isOrdOp] at hop <;> simp [hva, hax, hby, Val.truthy] at * <;> simp [hax, hby, Val.truthy]
+  | i v => cases op <;> simp [isOrdOp] at hop <;> simp [hva, hax, hby, Val.truthy] at * <;> simp [hax, hby, Val.truthy]
+  | d v => cases op <;> simp [isOrdOp] at hop <;> simp [hva, hax, hby, Val.truthy] at * <;> simp [hax, hby, Val.truthy]
+  | c v => simp [hva, Val.num] at hax
+  | err v => simp [hva, Val.num] at hax
+
+theorem evalCond_cmp (rows : List OptRow) (maps : List NameMap) (rt : Runtime) (o : Opts) (op : BinOp)
+    (opt : String) (ty : Ty) (s : String) (x y : Rat) (hty : ty = .int ∨ ty = .dbl) (hop : isOrdOp op = true)
+    (hx : numOf? ty (textOf rows o opt) = some x) (hy : numOf? ty s = some y) :
+    evalCond rows maps rt o (.bin op (.value opt ty) (.lit ty s)) = some (cmpOp op x y) :=
+  evalCond_bin_num rows maps rt o op _ _ x y hop (isNum_value rows maps rt o opt ty x hty hx)
+    (isNum_lit rows maps rt o ty s y hty hy)
+
+theorem cmpOp_flip (op op' : BinOp) (x y : Rat) (h : flipOp op = some op') : cmpOp op y x = cmpOp op' x y := by
+  cases op <;> simp [flipOp] at h <;> subst h <;> simp [cmpOp]
+
+theorem decide_lt_eq_not_le (x y : Rat) : decide (x < y) = !decide (y ≤ x) := by
+  by_cases h : x < y
+  · have : ¬ y ≤ x := Rat.not_le.mpr h
+    simp [h, this]
+  · have : y ≤ x := Rat.not_lt.mp h
+    simp [h, this]
+
+theorem decide_le_eq_not_lt (x y : Rat) : decide (x ≤ y) = !decide (y < x) := by
+  by_cases h : x ≤ y
+  · have : ¬ y < x := Rat.not_lt.mpr h
+    simp [h, this]
+  · have : y < x := Rat.not_le.mp h
+    simp [h, this]
+
+theorem cmpOp_neg (op op' : BinOp) (x y : Rat) (h : negOp op = some op') : (!cmpOp op x y) = cmpOp op' x y := by
+  cases op <;> simp [negOp] at h <;> subst h <;> simp only [cmpOp]
+  · rw [decide_lt_eq_not_le]; simp
+  · rw [decide_le_eq_not_lt]; simp
+  · rw [decide_le_eq_not_lt x y]
+  · rw [decide_lt_eq_not_le x y]
+
+theorem flipOp_isOrd (op op' : BinOp) (h : flipOp op = some op') : isOrdOp op = true := by
+  cases op <;> simp [flipOp] at h <;> rfl
+
+/-- a normalised comparison means what its normal form says -/
+theorem cmpNorm_sound (rows : List OptRow) (maps : List NameMap) (rt : Runtime) (o : Opts) :
+    ∀ (e : Expr) (op : BinOp) (opt : String) (ty : Ty) (s : String) (x y : Rat),
+      cmpNorm e = some (op, opt, ty, s) → numOf? ty (textOf rows o opt) = some x → numOf? ty s = some y →
+      evalCond rows maps rt o e = some (cmpOp op x y) := by
+  intro e
+  induction e with
+  | not e ih =>
+    intro op opt ty s x y h hx hy
+    simp only [cmpNorm] at h
+    cases hc : cmpNorm e with
+    | none => simp [hc] at h
+    | some c =>
+      obtain ⟨op0, o0, ty0, s0⟩ := c
+      simp only [hc, Option.map_eq_some_iff, Prod.mk.injEq] at h
+      obtain ⟨op', hn, rfl, rfl, rfl, rfl⟩ := h
+      rw [evalCond_not, ih op0 _ _ _ x y hc hx hy]
+      simp [cmpOp_neg op0 _ x y hn]
+  | bin op0 a b iha ihb =>
+    clear iha ihb
+    intro op opt ty s x y h hx hy
+    cases a <;> cases b <;> simp only [cmpNorm] at h <;> try (cases h)
+    case value.lit o' ty0 ty' s0 =>
+      split at h
+      · rename_i hc
+        obtain ⟨rfl, hty, hop⟩ := hc
+        simp only [Option.some.injEq, Prod.mk.injEq] at h
+        obtain ⟨rfl, rfl, rfl, rfl⟩ := h
+        exact evalCond_cmp rows maps rt o _ _ _ _ x y hty hop hx hy
+      · cases h
+    case lit.value ty' s0 o' ty0 =>
+      split at h
+      · rename_i hc
+        obtain ⟨rfl, hty⟩ := hc
+        simp only [Option.map_eq_some_iff, Prod.mk.injEq] at h
+        obtain ⟨op', hf, rfl, rfl, rfl, rfl⟩ := h
+        have hsw : evalCond rows maps rt o (.bin op0 (.lit ty0 s0) (.value o' ty0)) = some (cmpOp op0 y x) :=
+          evalCond_bin_num rows maps rt o op0 _ _ y x (flipOp_isOrd op0 _ hf)
+            (isNum_lit rows maps rt o ty0 s0 y hty hy) (isNum_value rows maps rt o o' ty0 x hty hx)
+        rw [hsw, cmpOp_flip op0 _ x y hf]
+      · cases h
+  | count _ => intro _ _ _ _ _ _ h; simp [cmpNorm] at h
+  | value _ _ => intro _ _ _ _ _ _ h; simp [cmpNorm] at h
+  | lookup _ _ _ => intro _ _ _ _ _ _ h; simp [cmpNorm] at h
+  | lookupFails _ _ _ => intro _ _ _ _ _ _ h; simp [cmpNorm] at h
+  | lit _ _ => intro _ _ _ _ _ _ h; simp [cmpNorm] at h
+  | const _ => intro _ _ _ _ _ _ h; simp [cmpNorm] at h
+  | neg _ _ => intro _ _ _ _ _ _ h; simp [cmpNorm] at h
+  | ite _ _ _ _ _ _ => intro _ _ _ _ _ _ h; simp [cmpNorm] at h
+  | index0 _ _ => intro _ _ _ _ _ _ h; simp [cmpNorm] at h
+  | field _ _ _ => intro _ _ _ _ _ _ h; simp [cmpNorm] at h
+  | sym _ => intro _ _ _ _ _ _ h; simp [cmpNorm] at h
+
+/-- the bad-input predicate of an atom holds for the given options -/
+def AtomHolds (rows : List OptRow) (maps : List NameMap) (o : Opts) : Atom → Prop
+  | .unknownName m opt => (lookupName maps m (textOf rows o opt)).isNone = true
+  | .intLt opt n => ∃ v : Int, parseIntCxx (textOf rows o opt).toList = some v ∧ v < n
+  | .dblLt opt q => ∃ x : Rat, parseNum (textOf rows o opt).toList = some x ∧ x < q
+
+theorem leafAtom_fires (rows : List OptRow) (maps : List NameMap) (rt : Runtime) (o : Opts) (e : Expr) (a : Atom)
+    (h : leafAtom? e = some [a]) (ha : AtomHolds rows maps o a) : evalCond rows maps rt o e = some true := by
+  unfold leafAtom? at h
+  split at h
+  · -- lookupFails
+    simp only [Option.some.injEq, List.cons.injEq, and_true] at h
+    subst h
+    simp only [AtomHolds] at ha
+    simp [evalCond, eval, Val.truthy, ha]
+  · -- comparison
+    cases hc : cmpNorm e with
+    | none => simp [hc] at h
+    | some c =>
+      obtain ⟨op, opt, ty, s⟩ := c
+      simp only [hc, Option.bind_some, Option.map_eq_some_iff, List.cons.injEq, and_true] at h
+      obtain ⟨a', hat, rfl⟩ := h
+      cases op <;> cases ty <;> simp [atomOfCmp] at hat
+      case lt.int =>
+        obtain ⟨n, hn, rfl⟩ := hat
+        obtain ⟨v, hv, hlt⟩ := ha
+        have := cmpNorm_sound rows maps rt o e _ _ _ _ (v : Rat) (n : Rat) hc (by simp [numOf?, hv]) (by simp [numOf?, hn])
+        rw [this]
+        simp [cmpOp, Rat.intCast_lt_intCast, hlt]
+      case le.int =>
+        obtain ⟨n, hn, rfl⟩ := hat
+        obtain ⟨v, hv, hlt⟩ := ha
+        have := cmpNorm_sound rows maps rt o e _ _ _ _ (v : Rat) (n : Rat) hc (by simp [numOf?, hv]) (by simp [numOf?, hn])
+        rw [this]
+        have hle : v ≤ n := by omega
+        simp [cmpOp, Rat.intCast_le_intCast, hle]
+      case lt.dbl =>
+        obtain ⟨q, hq, rfl⟩ := hat
+        obtain ⟨x, hx, hlt⟩ := ha
+        have := cmpNorm_sound rows maps rt o e _ _ _ _ x q hc (by simp [numOf?, hx]) (by simp [numOf?, hq])
+        rw [this]
+        simp [cmpOp, hlt]
+
+theorem leafAtom_singleton (e : Expr) (as : List Atom) (a : Atom) (h : leafAtom? e = some as) (hm : a ∈ as) :
+    as = [a] := by
+  unfold leafAtom? at h
+  split at h
+  · simp only [Option.some.injEq] at h
+    subst h
+    rw [List.mem_singleton.mp hm]
+  · simp only [Option.bind_eq_some_iff, Option.map_eq_some_iff] at h
+    obtain ⟨c, _, a', _, rfl⟩ := h
+    rw [List.mem_singleton.mp hm]
+
+/-- a guard condition that is a disjunction of atoms is not false when one of its atoms holds -/
+theorem atom_fires (rows : List OptRow) (maps : List NameMap) (rt : Runtime) (o : Opts) (a : Atom)
+    (ha : AtomHolds rows maps o a) :
+    ∀ (e : Expr) (as : List Atom), atomsOf? e = some as → a ∈ as → evalCond rows maps rt o e ≠ some false := by
+  intro e
+  induction e with
+  | bin op x y ihx ihy =>
+    intro as h hmem
+    by_cases hop : op = .or
+    · subst hop
+      simp only [atomsOf?] at h
+      cases hx : atomsOf? x with
+      | none => simp [hx] at h
+      | some ax =>
+        cases hy : atomsOf? y with
+        | none => simp [hx, hy] at h
+        | some ay =>
+          simp only [hx, hy, Option.some.injEq] at h
+          subst h
+          rw [evalCond_or]
+          rcases List.mem_append.mp hmem with hm | hm
+          · have := ihx ax hx hm
+            cases hvx : evalCond rows maps rt o x with
+            | none => cases evalCond rows maps rt o y <;> simp
+            | some bx =>
+              cases bx with
+              | false => exact absurd hvx this
+              | true => cases evalCond rows maps rt o y <;> simp
+          · have := ihy ay hy hm
+            cases hvy : evalCond rows maps rt o y with
+            | none => cases hvx : evalCond rows maps rt o x with
+              | none => simp
+              | some bx => cases bx <;> simp
+            | some by' =>
+              cases by' with
+              | false => exact absurd hvy this
+              | true => cases hvx : evalCond rows maps rt o x with
+                | none => simp
+                | some bx => simp
+    · have hleaf : atomsOf? (.bin op x y) = leafAtom? (.bin op x y) := by
+        cases op <;> first | exact absurd rfl hop | rfl
+      rw [hleaf] at h
+      have hs : as = [a] := leafAtom_singleton _ as a h hmem
+      subst hs
+      rw [leafAtom_fires rows maps rt o _ a h ha]
+      simp
+  | _ =>
+    intro as h hmem
+    simp only [atomsOf?] at h
+    have hs : as = [a] := leafAtom_singleton _ as a h hmem
+    subst hs
+    rw [leafAtom_fires rows maps rt o _ a h ha]
+    simp
+
+/-- a reached atom is a reached guard whose condition contains the atom -/
+theorem reachesAtom_guard (a : Atom) : ∀ (steps : List Step), reachesAtom a steps = true →
+    ∃ c as, reachesGuard c steps = true ∧ atomsOf? c = some as ∧ a ∈ as
+  | [], h => by simp [reachesAtom] at h
+  | .guard g :: rest, h => by
+    simp only [reachesAtom, Bool.and_eq_true, bne_iff_ne, ne_eq, Bool.or_eq_true] at h
+    obtain ⟨hne, hcase⟩ := h
+    rcases hcase with hg | hrest
+    · unfold guardHasAtom at hg
+      cases has : atomsOf? g.cond with
+      | none => simp [has] at hg
+      | some as =>
+        simp only [has, List.contains_eq_mem, decide_eq_true_eq] at hg
+        exact ⟨g.cond, as, by simp [reachesGuard, hne], has, hg⟩
+    · obtain ⟨c, as, hr, has, hm⟩ := reachesAtom_guard a rest hrest
+      exact ⟨c, as, by simp [reachesGuard, hne, hr], has, hm⟩
+  | .effect _ _ :: rest, h => by
+    simp only [reachesAtom] at h
+    obtain ⟨c, as, hr, has, hm⟩ := reachesAtom_guard a rest h
+    exact ⟨c, as, by simpa [reachesGuard] using hr, has, hm⟩
+  | .openIn _ :: rest, h => by
+    simp only [reachesAtom] at h
+    obtain ⟨c, as, hr, has, hm⟩ := reachesAtom_guard a rest h
+    exact ⟨c, as, by simpa [reachesGuard] using hr, has, hm⟩
+  | .openOut _ :: rest, h => by
+    simp only [reachesAtom] at h
+    obtain ⟨c, as, hr, has, hm⟩ := reachesAtom_guard a rest h
+    exact ⟨c, as, by simpa [reachesGuard] using hr, has, hm⟩
+  | .readData .. :: _, h => by simp [reachesAtom] at h
+  | .transpose .. :: _, h => by simp [reachesAtom] at h
+  | .embed .. :: _, h => by simp [reachesAtom] at h
+  | .writeMatrix .. :: _, h => by simp [reachesAtom] at h
+  | .writeVector .. :: _, h => by simp [reachesAtom] at h
+  | .ret _ :: _, h => by simp [reachesAtom] at h
+
+/-- whenever the bad-input predicate of a reached atom holds, main() returns a non-zero status -/
+theorem mainWith_atom_nonzero (rows : List OptRow) (maps : List NameMap) (wiring : List WireRow) (steps : List Step)
+    (catches : List (String × Nat)) (readFile : String → Option Str) (lib : Lib) (o : Opts) (a : Atom)
+    (hcatch : catchExit catches ≠ 0) (hreach : reachesAtom a steps = true) (ha : AtomHolds rows maps o a) :
+    (mainWith rows maps wiring steps catches readFile lib o).exit ≠ 0 := by
+  obtain ⟨c, as, hr, has, hm⟩ := reachesAtom_guard a steps hreach
+  exact mainWith_guard_nonzero rows maps wiring steps catches readFile lib o c hcatch hr
+    (fun rt => atom_fires rows maps rt o a ha c as has hm)
+
+/-! ## conditions of data steps by truth table -/
+
+/-- which flags are present, which run-time facts hold -/
+def assignOf (o : Opts) (rt : Runtime) : Assign :=
+  { tin := decide (0 < countOf o "transpose-input"), tout := decide (0 < countOf o "transpose-output"),
+    pre := decide (0 < countOf o "precompute"), pmat := decide (0 < countOf o "output-projection-matrix-file"),
+    pmean := decide (0 < countOf o "output-projection-mean-file"), hasProj := rt.hasProjection, castOk := rt.castOk }
+
+theorem allAssign_complete : ∀ a : Assign, a ∈ allAssign := by
+  intro ⟨a, b, c, d, e, f, g⟩
+  cases a <;> cases b <;> cases c <;> cases d <;> cases e <;> cases f <;> cases g <;> decide
+
+theorem evalCond_and (rows : List OptRow) (maps : List NameMap) (rt : Runtime) (o : Opts) (a b : Expr) :
+    evalCond rows maps rt o (.bin .and a b) =
+      (match evalCond rows maps rt o a, evalCond rows maps rt o b with
+       | some x, some y => some (x && y)
+       | some false, _ => some false
+       | _, _ => none) := by
+  simp only [evalCond, eval]
+  cases ha : (eval rows maps rt o a).truthy with
+  | none => cases hb : (eval rows maps rt o b).truthy <;> simp [Val.truthy]
+  | some x =>
+    cases hb : (eval rows maps rt o b).truthy with
+    | none => cases x <;> simp [Val.truthy]
+    | some y => simp [Val.truthy]
+
+/-- SUFFICIENCY LEMMA: a condition built from `count`, run-time symbols, `true/false`, `!`, `&&`, `||`, `?:` depends
+    on the options only through WHICH of the five flags are present; its value for any option set is its value under
+    the corresponding assignment. -/
+theorem evalA_sound (rows : List OptRow) (maps : List NameMap) (rt : Runtime) (o : Opts) :
+    ∀ (e : Expr) (b : Bool), evalA (assignOf o rt) e = some b → evalCond rows maps rt o e = some b := by
+  intro e
+  induction e with
+  | count x =>
+    intro b h
+    rw [evalCond_count]
+    simp only [evalA, Assign.flag, assignOf] at h
+    split at h
+    · rename_i hx; simp only [beq_iff_eq] at hx; subst hx; exact h
+    · split at h
+      · rename_i hx; simp only [beq_iff_eq] at hx; subst hx; exact h
+      · split at h
+        · rename_i hx; simp only [beq_iff_eq] at hx; subst hx; exact h
+        · split at h
+          · rename_i hx; simp only [beq_iff_eq] at hx; subst hx; exact h
+          · split at h
+            · rename_i hx; simp only [beq_iff_eq] at hx; subst hx; exact h
+            · cases h
+  | sym n =>
+    intro b h
+    simp only [evalA, assignOf] at h
+    simp only [evalCond, eval]
+    split at h
+    · rename_i hn; simp only [hn, if_true, Val.truthy]; exact h
+    · rename_i hn
+      split at h
+      · rename_i hn2; simp only [hn, hn2, if_true, Val.truthy]; simpa using h
+      · cases h
+  | lit ty s =>
+    intro b h
+    cases ty <;> simp only [evalA] at h <;> try cases h
+    simp only [evalCond, eval, litVal]
+    split at h
+    · rename_i hs; simp only [hs, if_true, Val.truthy]; exact h
+    · rename_i hs
+      split at h
+      · rename_i hs2; simp only [hs, hs2, if_true, Val.truthy]; simpa using h
+      · cases h
+  | not e ih =>
+    intro b h
+    simp only [evalA, Option.map_eq_some_iff] at h
+    obtain ⟨b', hb', rfl⟩ := h
+    rw [evalCond_not, ih b' hb']
+    rfl
+  | bin op x y ihx ihy =>
+    intro b h
+    cases op <;> simp only [evalA] at h <;> try cases h
+    · -- and
+      rw [evalCond_and]
+      cases hx : evalA (assignOf o rt) x with
+      | none => simp [hx] at h
+      | some p =>
+        rw [ihx p hx]
+        cases hy : evalA (assignOf o rt) y with
+        | none =>
+          cases p with
+          | false => simp [hx, hy] at h; subst h; cases evalCond rows maps rt o y <;> simp
+          | true => simp [hx, hy] at h
+        | some q =>
+          rw [ihy q hy]
+          simp [hx, hy] at h
+          simp [h]
+    · -- or
+      rw [evalCond_or]
+      cases hx : evalA (assignOf o rt) x with
+      | none => simp [hx] at h
+      | some p =>
+        rw [ihx p hx]
+        cases hy : evalA (assignOf o rt) y with
+        | none =>
+          cases p with
+          | true => simp [hx, hy] at h; subst h; cases evalCond rows maps rt o y <;> simp
+          | false => simp [hx, hy] at h
+        | some q =>
+          rw [ihy q hy]
+          simp [hx, hy] at h
+          simp [h]
+  | ite c x y ihc ihx ihy =>
+    intro b h
+    simp only [evalA] at h
+    cases hc : evalA (assignOf o rt) c with
+    | none => simp [hc] at h
+    | some p =>
+      have hcc := ihc p hc
+      simp only [evalCond] at hcc
+      cases p with
+      | true =>
+        simp only [hc] at h
+        have := ihx b h
+        simp only [evalCond] at this
+        simp only [evalCond, eval, hcc]
+        exact this
+      | false =>
+        simp only [hc] at h
+        have := ihy b h
+        simp only [evalCond] at this
+        simp only [evalCond, eval, hcc]
+        exact this
+  | value _ _ => intro b h; simp [evalA] at h
+  | lookup _ _ _ => intro b h; simp [evalA] at h
+  | lookupFails _ _ _ => intro b h; simp [evalA] at h
+  | const _ => intro b h; simp [evalA] at h
+  | neg _ _ => intro b h; simp [evalA] at h
+  | index0 _ _ => intro b h; simp [evalA] at h
+  | field _ _ _ => intro b h; simp [evalA] at h
+
+/-- a condition whose truth table is that of a predicate `p` evaluates to `p` for EVERY option set and run-time state -/
+theorem table_spec (e : Expr) (p : Assign → Bool) (h : tableOf e = tableOfPred p)
+    (rows : List OptRow) (maps : List NameMap) (rt : Runtime) (o : Opts) :
+    evalCond rows maps rt o e = some (p (assignOf o rt)) := by
+  apply evalA_sound
+  have hall : ∀ a ∈ allAssign, evalA a e = some (p a) := by
+    unfold tableOf tableOfPred at h
+    exact fun a ha => List.map_inj_left.mp h a ha
+  exact hall _ (allAssign_complete _)
 
 /-! ## the conditions of the spec guards, evaluated -/
 
